@@ -67,6 +67,27 @@ def generate(ctx):
                                         info={"ref_row": ref_row, "queries": [(nm, r) for nm, r in recs if nm != "REF"],
                                               "features": gbfeats if suffix == "gb" else feats, "genbank": suffix == "gb",
                                               "genome": genome, "annob": annob, "suffix": suffix, "mode": mode}))
+    # annotations WITHOUT a coding feature (GenBank: source / gene / UTR features only; GFF3: no CDS row, or CDS rows without a
+    # Name): every difference is a nuc: record, none is dropped; drawn from a PRNG of its own
+    import random
+    wr = random.Random(606 + ctx.seed)
+    base = len(cs) + 100000
+    for k in range(4 if ctx.tier == "quick" else 40):
+        suffix = ["gb", "gff"][k % 2]
+        genome = gen.rand_seq(wr, wr.choice([30, 45]))
+        ref_row, rows = anno.make_msa(wr, genome, wr.randint(1, 3), with_insertions=(k % 4 < 2))
+        mode = "first" if k % 4 < 2 else "anno"
+        if mode == "anno":
+            msa, recs = vcommon.build_msa(wr, ref_row, rows, refpos=None)
+            refid = ""
+        else:
+            msa, recs = vcommon.build_msa(wr, ref_row, rows, refpos="first")
+            refid = "REF"
+        annob = anno.render_genbank(genome, [], wr) if suffix == "gb" else anno.render_gff(genome, [], mix=wr)
+        cs.append(vcommon.variants_case(base + k, msa, refid, annob, suffix, {"kind": "%s:no-coding-feature" % suffix, "nontrivial": True}, append_snps=wr.random() < 0.5,
+                                        threads=1,
+                                        info={"ref_row": ref_row, "queries": [(nm, r) for nm, r in recs if nm != "REF"], "features": [], "genbank": suffix == "gb",
+                                              "genome": genome, "annob": annob, "suffix": suffix, "mode": mode}))
     return cs
 
 
